@@ -224,3 +224,6 @@ func VerifHarness_C10_O5() {
 // C10/O8 — the set in force at a round is the one used for that round's
 // decisions: fame threshold across a validator-set change (= C01/O2d).
 func VerifHarness_C10_O8() { VerifHarness_C01_O2d() }
+
+// C10/O9 — round-received thresholds across a validator-set change (= C01/O4b).
+func VerifHarness_C10_O9() { VerifHarness_C01_O4b() }
